@@ -49,7 +49,8 @@ func (rm *RegistrationManager) HandleRegUpdates(ctx context.Context, regChan <-c
 	defer parentWG.Done()
 	logger := rm.Logger
 	workers := defaultWorkerCount
-	if rm.IngestWorkerCount != 0 {
+	if rm.IngestWorkerCount > 0 {
+		// (a negative count is not usable: the job buffer below cannot have a negative size)
 		workers = rm.IngestWorkerCount
 	}
 
